@@ -35,8 +35,8 @@ class ConstPool:
     """Canonical exact value for every float constant met on either side (DESIGN 2.2).
 
     * integers stay themselves; a constant within 1e-10 relative of a registered one becomes that one;
-    * "simple" rationals (denominator <= 10^5, within ~16 ulp: a statistically significant
-      approximation, error << 1/q^2) are snapped to that rational;
+    * "simple" rationals (denominator <= 10^3/10^4/10^5 within 1e-12/1e-13/4e-15 relative: a
+      statistically significant approximation, error << 1/q^2) are snapped to that rational;
     * every other ("opaque": irrational table entries, folded products of those) constant joins
       the ratio class of an already registered opaque constant m if c/m is a simple rational
       r (denominator <= 1000, within 1e-11 relative; r = 1 is plain clustering) and gets the exact
@@ -46,8 +46,10 @@ class ConstPool:
       the instance is skipped (counted), never passed.
     """
     REL = 1e-10
-    SIMPLE_DEN = 10 ** 5
-    SIMPLE_TOL = Fraction(4, 10 ** 15)      # ~16 ulp: chance hit for a random real ~ q^2*tol = 4e-5
+    # (max denominator, relative tolerance): a rational p/q is accepted when the approximation is
+    # statistically significant (chance hit for a random real ~ q^2*tol <= 1e-5); CasADi's
+    # collocation_coeff carries errors up to ~1e-14 on small rationals such as -1 or 17/2
+    SIMPLE_TIERS = ((10 ** 3, Fraction(1, 10 ** 12)), (10 ** 4, Fraction(1, 10 ** 13)), (10 ** 5, Fraction(4, 10 ** 15)))
     RATIO_DEN = 1000
     RATIO_TOL = 1e-11
 
@@ -89,15 +91,18 @@ class ConstPool:
         # (2) simple rational: statistically significant approximation (error << 1/q^2)
         val = None
         cl = -1
-        if isinstance(c, Fraction):
-            if exact.denominator <= self.SIMPLE_DEN:
-                val = exact
-        else:
-            s = exact.limit_denominator(self.SIMPLE_DEN)
-            if abs(s - exact) <= abs(exact) * self.SIMPLE_TOL:
-                val = s
-                if s != exact:
-                    self.snapped += 1
+        s = None
+        for den, tol in self.SIMPLE_TIERS:
+            s = exact.limit_denominator(den)
+            if abs(s - exact) <= abs(exact) * tol:
+                break
+            s = None
+        if s is not None:
+            # also for exact inputs of the reference: tables computed exactly from rounded collocation
+            # points are within an ulp of the true rational (e.g. 17/2), which is what CasADi's double snaps to
+            val = s
+            if s != exact:
+                self.snapped += 1
         if val is None:
             # (3) ratio class of an opaque constant
             found = None
@@ -560,6 +565,8 @@ class SXProgram:
                     if x is None:
                         raise HarnessError('selfcheck: output not written')
                     if math.isnan(x) and math.isnan(y):
+                        continue
+                    if math.isinf(x) and math.isinf(y) and (x > 0) == (y > 0):
                         continue
                     if not (abs(x - y) <= tol * max(1.0, abs(x), abs(y))):
                         raise HarnessError('selfcheck: translator %r vs casadi %r' % (x, y))
